@@ -27,6 +27,7 @@ inductive Query
   | responses (c : CtxId) (batch : Nat)
   | fees (prov : Addr)
   | params
+  | schema (name : String)                           -- the two system schemas, by name (case-insensitive)
 deriving Repr, DecidableEq
 
 /-- a request as the queries return it: the stored compact record completed from its context -/
@@ -41,6 +42,10 @@ structure ReqView where
   expH  : Int
 deriving Repr, DecidableEq
 
+/-- the two constants `types.PricingSchema` and `types.ResultSchema` -/
+inductive SchemaKind | pricing | result
+deriving Repr, DecidableEq
+
 inductive Answer
   | defn (name : SvcName) (d : Definition)
   | bindings (l : List ((SvcName × Addr) × Binding))
@@ -51,9 +56,10 @@ inductive Answer
   | responses (l : List (ReqId × Resp))
   | fees (prov : Addr) (n : Nat)
   | params (p : Params)
+  | schema (k : SchemaKind)
 deriving Repr
 
-inductive QErr | unknownDefinition | unknownBinding
+inductive QErr | unknownDefinition | unknownBinding | invalidSchemaName
 deriving Repr, DecidableEq
 
 /-- keeper/invocation.go GetRequest: the compact record, then its context; either missing = not found -/
@@ -94,5 +100,10 @@ def query (s : State) : Query → Except QErr Answer
   | .responses c batch => .ok (.responses ((entries s.resps).filter (fun e => e.1.ctx = c ∧ e.1.batch = batch)))
   | .fees prov => .ok (.fees prov ((get s.earned prov).getD 0))
   | .params => .ok (.params s.params)
+  | .schema name =>
+    -- `strings.ToLower(name)`, then `pricing` / `result` / anything else is refused; no store access at all
+    if name.toLower = "pricing" then .ok (.schema .pricing)
+    else if name.toLower = "result" then .ok (.schema .result)
+    else .error .invalidSchemaName
 
 end SM
